@@ -97,7 +97,7 @@ def _obs_fix(o):
 def build_case(args):
     prop, cid, src, base, incl, seed, identity = args
     rng = random.Random(seed)
-    cz = decio.Concretiser(rng, base=None if identity else base, conj_matters=(prop in ("C03",) or bool(base)))
+    cz = decio.Concretiser(rng, base=None if identity else base, conj_matters=(prop in ("C03", "C08C") or bool(base)))
     if identity:
         cz.names = IdentityMap()
     case = {"prop": prop, "cid": cid, "src": src, "base": base, "incl": incl}
